@@ -613,6 +613,9 @@ func (r *Run) ExecBlock(bi int, b Block) {
 		rec.TxResults = append(rec.TxResults, resp)
 		tr := r.decodeResult(bt, resp)
 		tr.Height, tr.Block, tr.Index = h, bi, oi
+		if os.Getenv("EXOSIM_TXLOG") != "" {
+			fmt.Fprintf(os.Stderr, "TX h=%d %s ok=%v code=%d gasUsed=%d gasWanted=%d log=%s\n", h, op, tr.OK, resp.Code, resp.GasUsed, resp.GasWanted, firstN(firstLine(resp.Log), 200))
+		}
 		if tr.OK && bt.Creates != nil {
 			r.Contracts = append(r.Contracts, *bt.Creates)
 		}
